@@ -82,8 +82,8 @@ Logged ==
   \/ (Is("Quiesce") /\ Quiescent /\ (\A i \in sent : resp[i] = 1)
         /\ \A d \in Docs : cOpen[d] => (vfsText[d] = Tok(E.docs[d]) /\ dbText[d] = vfsText[d] /\ cText[d] = vfsText[d])
         /\ PrintT(<<"MON", ToJson([k |-> "diag", sess |-> E.sess,
-                                   docs |-> [d \in Docs |-> [open |-> cOpen[d], pubver |-> published[d].ver, c |-> published[d].c,
-                                                             dbver |-> dbVer[d]]]])>>)
+                                   docs |-> [x \in Docs |-> [open |-> cOpen[x], pubver |-> published[x].ver, c |-> published[x].c,
+                                                             dbver |-> dbVer[x]]]])>>)
         /\ Obs0)
 
 \* silent steps
